@@ -5,6 +5,7 @@
 #include "sha2.hpp"
 #include "blake2b.hpp"
 #include "poly1305.hpp"
+#include "giant.hpp"
 #include <errno.h>
 using namespace vh;
 
@@ -344,6 +345,82 @@ void explore_poly_carry(Ctx &ctx) {
         }
 }
 
+// ------------------------------------------------------------------ messages of 4 GiB and more (thorough tier, non-sanitizer build)
+// The message is a sparse private mapping of 2^32 + 13 bytes (zero pages with a few poked bytes; reading it costs no memory).  Oracles:
+// SipHash against a pointer-based model written here; every algorithm with a streaming API: one-shot == the same message fed in pieces of
+// 2^24 + 1 bytes (the property's chunking clause; each piece is in the range checked against the models); and the digest must differ from
+// that of the first (len mod 2^32) bytes, which is what a length truncated to 32 bits would hash.
+uint64_t ref_siphash_ptr(const uint8_t *in, uint64_t n, const uint8_t k[16], uint64_t *second) {     // SipHash-2-4, 64-bit (second == nullptr) or 128-bit output
+    auto rotl = [](uint64_t x, int b) { return (x << b) | (x >> (64 - b)); };
+    auto ld = [](const uint8_t *p) { uint64_t v = 0; for (int i = 7; i >= 0; i--) v = (v << 8) | p[i]; return v; };
+    uint64_t k0 = ld(k), k1 = ld(k + 8), v0 = 0x736f6d6570736575ULL ^ k0, v1 = 0x646f72616e646f6dULL ^ k1, v2 = 0x6c7967656e657261ULL ^ k0, v3 = 0x7465646279746573ULL ^ k1;
+    if (second) v1 ^= 0xee;
+    auto round = [&]() { v0 += v1; v1 = rotl(v1, 13); v1 ^= v0; v0 = rotl(v0, 32); v2 += v3; v3 = rotl(v3, 16); v3 ^= v2; v0 += v3; v3 = rotl(v3, 21); v3 ^= v0; v2 += v1; v1 = rotl(v1, 17); v1 ^= v2; v2 = rotl(v2, 32); };
+    uint64_t full = n / 8 * 8;
+    for (uint64_t off = 0; off < full; off += 8) { uint64_t m = ld(in + off); v3 ^= m; round(); round(); v0 ^= m; }
+    uint64_t b = n << 56; for (uint64_t i = 0; i < n - full; i++) b |= (uint64_t) in[full + i] << (8 * i);
+    v3 ^= b; round(); round(); v0 ^= b;
+    v2 ^= second ? 0xee : 0xff; round(); round(); round(); round();
+    uint64_t r = v0 ^ v1 ^ v2 ^ v3;
+    if (second) { v1 ^= 0xdd; round(); round(); round(); round(); *second = v0 ^ v1 ^ v2 ^ v3; }
+    return r;
+}
+struct GiantCase { int alg; size_t len; unsigned long mask; KV kv() const { KV k; k.s("kind", "giant").s("alg", AN[alg]).u("algi", alg).u("len", len).u("mask", mask); return k; } };
+uint64_t g_giant_skipped = 0;
+Bytes giant_digest(int alg, const uint8_t *p, size_t n, size_t piece, const Bytes &key) {      // piece == 0: one-shot
+    Bytes out(64, 0);
+    auto feed = [&](auto upd) { if (piece == 0) return; for (size_t off = 0; off < n; off += piece) upd(p + off, std::min(piece, n - off)); };
+    switch (alg) {
+    case SHA256: if (!piece) crypto_hash_sha256(out.data(), p, n); else { crypto_hash_sha256_state s; crypto_hash_sha256_init(&s); feed([&](const uint8_t *q, size_t l) { crypto_hash_sha256_update(&s, q, l); }); crypto_hash_sha256_final(&s, out.data()); } out.resize(32); break;
+    case SHA512: if (!piece) crypto_hash_sha512(out.data(), p, n); else { crypto_hash_sha512_state s; crypto_hash_sha512_init(&s); feed([&](const uint8_t *q, size_t l) { crypto_hash_sha512_update(&s, q, l); }); crypto_hash_sha512_final(&s, out.data()); } break;
+    case HMAC256: if (!piece) crypto_auth_hmacsha256(out.data(), p, n, key.data()); else { crypto_auth_hmacsha256_state s; crypto_auth_hmacsha256_init(&s, key.data(), 32); feed([&](const uint8_t *q, size_t l) { crypto_auth_hmacsha256_update(&s, q, l); }); crypto_auth_hmacsha256_final(&s, out.data()); } out.resize(32); break;
+    case HMAC512: if (!piece) crypto_auth_hmacsha512(out.data(), p, n, key.data()); else { crypto_auth_hmacsha512_state s; crypto_auth_hmacsha512_init(&s, key.data(), 32); feed([&](const uint8_t *q, size_t l) { crypto_auth_hmacsha512_update(&s, q, l); }); crypto_auth_hmacsha512_final(&s, out.data()); } break;
+    case HMAC512256: if (!piece) crypto_auth_hmacsha512256(out.data(), p, n, key.data()); else { crypto_auth_hmacsha512256_state s; crypto_auth_hmacsha512256_init(&s, key.data(), 32); feed([&](const uint8_t *q, size_t l) { crypto_auth_hmacsha512256_update(&s, q, l); }); crypto_auth_hmacsha512256_final(&s, out.data()); } out.resize(32); break;
+    case GENERIC: if (!piece) crypto_generichash(out.data(), 48, p, n, key.data(), 32); else { crypto_generichash_state s; crypto_generichash_init(&s, key.data(), 32, 48); feed([&](const uint8_t *q, size_t l) { crypto_generichash_update(&s, q, l); }); crypto_generichash_final(&s, out.data(), 48); } out.resize(48); break;
+    case POLY1305: if (!piece) crypto_onetimeauth(out.data(), p, n, key.data()); else { crypto_onetimeauth_state s; crypto_onetimeauth_init(&s, key.data()); feed([&](const uint8_t *q, size_t l) { crypto_onetimeauth_update(&s, q, l); }); crypto_onetimeauth_final(&s, out.data()); } out.resize(16); break;
+    case SIPHASH: crypto_shorthash(out.data(), p, n, key.data()); out.resize(8); break;
+    default: crypto_shorthash_siphashx24(out.data(), p, n, key.data()); out.resize(16); break;
+    }
+    return out;
+}
+bool run_giant(const GiantCase &c, std::string &msg) {
+    set_mask(c.mask);
+    giant::Map M(c.len); if (!M.ok()) { g_giant_skipped++; return true; }
+    M.poke();
+    Bytes key(32); for (size_t i = 0; i < 32; i++) key[i] = (uint8_t) (0x30 + 5 * i);
+    Bytes one = giant_digest(c.alg, M.p, c.len, 0, key);
+    char b[300];
+    if (c.alg == SIPHASH || c.alg == SIPHASHX) {
+        uint64_t second = 0, first = ref_siphash_ptr(M.p, c.len, key.data(), c.alg == SIPHASHX ? &second : nullptr);
+        Bytes want; for (int i = 0; i < 8; i++) want.push_back((uint8_t) (first >> (8 * i))); if (c.alg == SIPHASHX) for (int i = 0; i < 8; i++) want.push_back((uint8_t) (second >> (8 * i)));
+        if (one != want) { snprintf(b, sizeof b, "%s over %zu bytes differs from the specification: got %s want %s", AN[c.alg], c.len, hex(one).c_str(), hex(want).c_str()); msg = b; return false; }
+    } else {
+        Bytes pieces = giant_digest(c.alg, M.p, c.len, ((size_t) 1 << 24) + 1, key);
+        if (one != pieces) { snprintf(b, sizeof b, "%s over %zu bytes: the one-shot result %s differs from the same message fed in pieces of 2^24+1 bytes (%s)", AN[c.alg], c.len, hex(one).c_str(), hex(pieces).c_str()); msg = b; return false; }
+        // the streaming entry point itself with a length that needs more than 32 bits: everything in one update call, and 2^32 bytes + the rest
+        for (size_t piece : { c.len, (size_t) 1 << 32 }) {
+            Bytes big = giant_digest(c.alg, M.p, c.len, piece, key);
+            if (one != big) { snprintf(b, sizeof b, "%s over %zu bytes: init / update(%zu bytes)%s / final gives %s, the one-shot function and the small pieces give %s", AN[c.alg], c.len, piece, piece < c.len ? " / update(the rest)" : "", hex(big).c_str(), hex(one).c_str()); msg = b; return false; }
+        }
+    }
+    Bytes trunc = giant_digest(c.alg, M.p, c.len & 0xffffffffULL, 0, key);
+    if (one == trunc) { snprintf(b, sizeof b, "%s over %zu bytes equals the result for the first %zu bytes only (length truncated to 32 bits)", AN[c.alg], c.len, (size_t) (c.len & 0xffffffffULL)); msg = b; return false; }
+    return true;
+}
+void explore_giant(Ctx &ctx) {
+    if (!ctx.thorough() || !giant::fast_build() || !giant::first_round()) { ctx.notes["giant_messages"] = "thorough tier, non-sanitizer build, first round only"; return; }
+    auto masks = masks04();
+    uint64_t idx = 0;
+    for (int alg : { SHA256, SHA512, HMAC256, HMAC512, HMAC512256, GENERIC, POLY1305, SIPHASH, SIPHASHX })
+        for (size_t mi = 0; mi < masks.size(); mi++) {
+            if (mi > 0 && alg != GENERIC && alg != POLY1305) continue;      // only these two have several backends
+            if (!ctx.mine(idx++)) continue;
+            GiantCase c{ alg, ((size_t) 1 << 32) + 13, masks[mi] };
+            exec_case(ctx, c, run_giant, mix64(mix64(alg, c.len), c.mask), true);
+        }
+    ctx.notes["giant_messages_skipped_no_memory"] = std::to_string(g_giant_skipped);
+}
+
 // ------------------------------------------------------------------ verify functions accept exactly the correct tag
 struct VCase {
     int alg; uint64_t mseed; size_t mlen; Bytes key; int flipbit;   // flipbit < 0: correct tag
@@ -464,6 +541,7 @@ void explore_kdf(Ctx &ctx) {
 
 bool replay(const KV &k, std::string &msg) {
     if (k.gs("kind") == "verify") { VCase v; v.alg = 0; for (int i = 0; i < NALG; i++) if (k.gs("alg") == AN[i]) v.alg = i; v.mseed = k.gu("mseed"); v.mlen = k.gu("mlen"); v.key = k.gb("key"); v.flipbit = (int) k.gi("flipbit"); return run_verify(v, msg); }
+    if (k.gs("kind") == "giant") { GiantCase c{ (int) k.gu("algi"), (size_t) k.gu("len"), (unsigned long) k.gu("mask") }; return run_giant(c, msg); }
     if (k.gs("kind") == "kdf") { KCase c{ (int) k.gu("k"), (size_t) k.gu("outlen"), k.gb("key"), k.gb("ctx"), k.gu("id"), k.gu("null_ctx") != 0 }; return run_kdf(c, msg); }
     Case c = Case::from(k); return run(c, msg);
 }
@@ -471,5 +549,5 @@ bool replay(const KV &k, std::string &msg) {
 }  // namespace
 
 std::vector<Sub> vh_subs() {
-    return { { "lengths", explore_lengths, replay }, { "chunking", explore_chunking, replay }, { "poly1305_carry", explore_poly_carry, replay }, { "verify", explore_verify, replay }, { "kdf", explore_kdf, replay } };
+    return { { "lengths", explore_lengths, replay }, { "chunking", explore_chunking, replay }, { "poly1305_carry", explore_poly_carry, replay }, { "verify", explore_verify, replay }, { "kdf", explore_kdf, replay }, { "giant_messages", explore_giant, replay } };
 }
